@@ -17,7 +17,7 @@ import (
 func init() { register("C09", genC09) }
 
 type c09Desc struct {
-	Rt      string   `json:"runtime"`    // exitsOnTerm | ignoresTerm | alreadyExited | neverStarted | launchFail
+	Rt      string   `json:"runtime"`    // exitsOnTerm | ignoresTerm | alreadyExited | neverStarted | launchFail | stuck (ignores TERM and the SHUTDOWN event, dies on KILL, but its termination is never reported)
 	Exts    []string `json:"extensions"` // subExits | subIgnores | subNotPolling | subLatePoll | unsub | alreadyExited | launchFail | neverRegisters
 	Trigger string   `json:"trigger"`    // timeout | failure | explicit | shutdown
 	Allowed int64    `json:"allowed_ms"`
@@ -83,6 +83,12 @@ func genC09(tier string, seed int64) []Case {
 		add(c09Desc{Rt: "neverStarted", Exts: es, Trigger: "timeout", Allowed: 2000})
 		add(c09Desc{Rt: "neverStarted", Exts: es, Trigger: "explicit", Allowed: 500})
 	}
+	// processes whose termination is never reported (the supervisor's Kill gives up): the operation returns after
+	// the fixed 2 s grace - with one such process, and with several
+	add(c09Desc{Rt: "stuck", Exts: []string{}, Trigger: "explicit", Allowed: 400})
+	add(c09Desc{Rt: "stuck", Exts: []string{"stuck"}, Trigger: "explicit", Allowed: 400})
+	add(c09Desc{Rt: "exitsOnTerm", Exts: []string{"stuck", "stuck"}, Trigger: "shutdown", Allowed: 400})
+	add(c09Desc{Rt: "stuck", Exts: []string{"stuck", "subExits"}, Trigger: "timeout", Allowed: 2000})
 	// the runtime cannot be launched: nothing may be signalled that was never started, nothing waited for
 	for _, es := range [][]string{{}, {"subExits"}, {"subIgnores"}, {"unsub"}, {"subExits", "unsub"}} {
 		add(c09Desc{Rt: "launchFail", Exts: es, Trigger: "failure", Allowed: 2000})
@@ -141,7 +147,7 @@ func runC09(c *Ctx, d c09Desc) {
 		if d.Rt == "launchFail" {
 			return vh.ExecPlan{Fail: errors.New("fork/exec /var/runtime/bootstrap: exec format error")}
 		}
-		o := RtOpts{IgnoreTerm: d.Rt == "ignoresTerm"}
+		o := RtOpts{IgnoreTerm: d.Rt == "ignoresTerm" || d.Rt == "stuck"}
 		o.Handle = func(p *vh.Proc, pt *vh.Party, n int, ev *vh.Resp) *vh.Exit {
 			if d.Rt == "alreadyExited" && d.Trigger == "failure" {
 				return &vh.Exit{Code: 1}
@@ -169,7 +175,7 @@ func runC09(c *Ctx, d c09Desc) {
 				return nil
 			}
 		}
-		return vh.ExecPlan{Behave: w.RtLoop(o)}
+		return vh.ExecPlan{Behave: w.RtLoop(o), MuteExit: d.Rt == "stuck"}
 	}
 	w.ExtPlan = func(base string, gen int, p *vh.Proc) vh.ExecPlan {
 		if gen != 1 {
@@ -197,6 +203,10 @@ func runC09(c *Ctx, d c09Desc) {
 				o.Events = []string{"SHUTDOWN"}
 			}
 			o.OnEvent = func(p *vh.Proc, pt *vh.Party, n int, ev *vh.Resp) *vh.Exit { record(p, ev); return nil }
+		case "stuck":
+			o.IgnoreShutdown = true
+			o.OnEvent = func(p *vh.Proc, pt *vh.Party, n int, ev *vh.Resp) *vh.Exit { record(p, ev); return nil }
+			return vh.ExecPlan{Behave: w.ExtLoop(o), MuteExit: true}
 		case "subIgnores":
 			o.IgnoreShutdown = true
 			o.OnEvent = func(p *vh.Proc, pt *vh.Party, n int, ev *vh.Resp) *vh.Exit {
@@ -299,7 +309,7 @@ func runC09(c *Ctx, d c09Desc) {
 	}
 	// every extension that is expected to be polling must be parked in next before the trigger
 	for i, k := range d.Exts {
-		if k == "subExits" || k == "subIgnores" || k == "unsub" || (k == "alreadyExited" && d.Trigger != "failure") || (k == "subNotPolling") || (k == "subLatePoll") {
+		if k == "subExits" || k == "subIgnores" || k == "unsub" || (k == "alreadyExited" && d.Trigger != "failure") || (k == "subNotPolling") || (k == "subLatePoll") || (k == "stuck") {
 			name := fmt.Sprintf("ext%d", i)
 			dl := time.Now().Add(5 * time.Second)
 			for time.Now().Before(dl) && w.E.ExtState(name) != "Ready" {
@@ -441,7 +451,7 @@ func runC09(c *Ctx, d c09Desc) {
 			if !exitedBefore {
 				c.Check(len(terms) == 1, "term_sent", fmt.Sprintf("C09/term-count/%d/%s", len(terms), cls), fmt.Sprintf("runtime received %d SIGTERM requests", len(terms)), nil)
 			}
-			needKill := d.Rt == "ignoresTerm" && !exitedBefore
+			needKill := (d.Rt == "ignoresTerm" || d.Rt == "stuck") && !exitedBefore
 			if needKill {
 				if c.Check(len(kills) == 1, "kill_if_alive", fmt.Sprintf("C09/runtime-kill-count/%d/%s", len(kills), cls), "a runtime ignoring SIGTERM must be killed exactly once", nil) && D > 0 {
 					lower := tTrig + time.Duration(0.3*float64(allowed))
@@ -468,7 +478,7 @@ func runC09(c *Ctx, d c09Desc) {
 		aliveKills := vh.Filter(kills, func(e vh.Event) bool { return e.Extra["alive"] == "true" })
 		ec := "C09/ext/" + kind + "/" + d.Trigger
 		switch kind {
-		case "subExits", "subIgnores", "subLatePoll":
+		case "subExits", "subIgnores", "subLatePoll", "stuck":
 			if c.Check(len(got) == 1, "one_shutdown_event", fmt.Sprintf("%s/events-%d", ec, len(got)), fmt.Sprintf("SHUTDOWN-subscribed polling extension received %d SHUTDOWN events", len(got)), nil) {
 				okReason := got[0].ShutdownReason == reason
 				if d.Rt == "neverStarted" && d.Trigger == "timeout" && got[0].ShutdownReason == "spindown" {
@@ -510,7 +520,13 @@ func runC09(c *Ctx, d c09Desc) {
 	}
 
 	// ---- (f) returns only after every process it started was reaped ----
+	anyStuck := false
 	for _, p := range procs {
+		if p.MuteExit {
+			// its termination is never reported: the operation gives up on it after the fixed grace
+			anyStuck = true
+			continue
+		}
 		reaped := false
 		for _, e := range evs {
 			if e.Src == "sup" && e.Kind == "exit" && e.Op == p.Name && e.Seq < retSeq {
@@ -526,6 +542,10 @@ func runC09(c *Ctx, d c09Desc) {
 			if e.Seq == retSeq {
 				tRet = tOf(e)
 			}
+		}
+		if anyStuck {
+			c.Check(tRet >= D, "grace_not_cut_short", "C09/early-return-with-stuck-process/"+d.Trigger, "the operation returned before the deadline although a process had not been reaped", nil)
+			c.Clause("returns_after_grace_with_stuck_processes")
 		}
 		c.Check(tRet <= D+2*time.Second+2500*time.Millisecond, "returns_in_time", "C09/late-return/"+d.Trigger, fmt.Sprintf("operation returned %.0f ms after the deadline", float64(tRet-D)/1e6), nil)
 	}
